@@ -34,6 +34,33 @@ def notations(rng, lut, misc, sel):
     return forms
 
 
+def enc(x):
+    """ordered-object wire form of the Lean driver"""
+    if isinstance(x, dict):
+        return {'$o': [[k, enc(v)] for k, v in x.items()]}
+    if isinstance(x, list):
+        return [enc(v) for v in x]
+    return x
+
+
+def dec(x):
+    if isinstance(x, dict) and '$o' in x:
+        return {k: dec(v) for k, v in x['$o']}
+    if isinstance(x, list):
+        return [dec(v) for v in x]
+    return x
+
+
+def slim(b):
+    """a basis dictionary reduced to what the front end of get_basis looks at: every top-level field, the element keys in order, and per
+    element the function / ECP types (the model of `_whole_basis_types` reads nothing else)"""
+    r = {k: v for k, v in b.items() if k in ('name', 'names', 'description', 'family', 'role', 'version', 'function_types', 'molssi_bse_schema')}
+    r['elements'] = {z: dict(([('electron_shells', [dict(function_type=sh['function_type']) for sh in el['electron_shells']])] if 'electron_shells' in el else []) +
+                             ([('ecp_potentials', [dict(ecp_type=p['ecp_type']) for p in el['ecp_potentials']])] if 'ecp_potentials' in el else []))
+                     for z, el in b['elements'].items()}
+    return {k: r[k] for k in b if k in r}
+
+
 def work(item):
     bse = import_bse()
     from basis_set_exchange import lut, misc, compose
@@ -52,6 +79,14 @@ def work(item):
         out['error'] = cls(ex)
         return out
     disp = e['display_name']
+    try:
+        composed = slim(compose.compose_table_basis(e['versions'][e['latest_version']]['file_relpath'], bse.api.fix_data_dir(None)))
+    except Exception as ex:
+        composed = None
+        bad('selection_is_restriction', 'compose_table_basis raises %s although get_basis answers' % cls(ex))
+    if composed is not None:
+        out['reqs'].append((dict(op='apply_selection', basis=enc(composed), display=disp), ('ok', slim(full))))
+        out['reqs'].append((dict(op='apply_selection', basis=enc(composed), display=disp, sel=[]), ('ok', slim(full))))
     # default version = highest listed
     if full['version'] != e['latest_version'] or e['latest_version'] != max(e['versions']):
         bad('default_is_latest', 'default version is not the highest one listed', got=full['version'], versions=sorted(e['versions']))
@@ -134,6 +169,12 @@ def work(item):
             except Exception as ex:
                 bad('element_notation', 'get_references raises %s on an accepted notation' % cls(ex), selection=f)
         out['reqs'].append((dict(op='select', keys=els, sel=[str(z) for z in sel]), ('ok', want_order)))
+        if composed is not None:
+            try:
+                out['reqs'].append((dict(op='apply_selection', basis=enc(composed), display=disp, sel=misc.expand_elements(sel, True)),
+                                    ('ok', slim(bse.get_basis(key, elements=sel)))))
+            except Exception as ex:
+                bad('element_notation', 'an accepted selection raises ' + cls(ex), selection=sel)
     # empty / None
     for f in (None, [], '', ',', [''], ' '):
         out['n'] += 1
@@ -166,6 +207,8 @@ def work(item):
             except Exception as ex:
                 bad('missing_element_keyerror', 'get_references: undefined element raises %s' % cls(ex), selection=f)
         out['reqs'].append((dict(op='select', keys=els, sel=[str(have), str(m)]), ('err', 'KeyError')))
+        if composed is not None:
+            out['reqs'].append((dict(op='apply_selection', basis=enc(composed), display=disp, sel=[str(have), str(m)]), ('err', 'KeyError')))
     for f in ('H-', '1-2-3', 'Xx', '-3', 'H,,-He'):
         out['n'] += 1
         try:
@@ -215,9 +258,9 @@ def run(ctx):
         for a, rq, (key, wa) in zip(ans, reqs, want):
             if 'drv_error' in a:
                 raise DriverError(a['drv_error'])
-            got = ('ok', a['ok']) if 'ok' in a else ('err', a['raise'])
-            if got != wa:
-                R.disagree(rq['op'], dict(name=key, request={k: v for k, v in rq.items() if k != 'keys'}), got, wa)
+            got = ('ok', dec(a['ok'])) if 'ok' in a else ('err', a['raise'])
+            if got != wa or (got[0] == 'ok' and isinstance(wa[1], dict) and (list(got[1]) != list(wa[1]) or list(got[1]['elements']) != list(wa[1]['elements']))):
+                R.disagree(rq['op'], dict(name=key, request={k: v for k, v in rq.items() if k not in ('keys', 'basis')}), str(got)[:300], str(wa)[:300])
         R.extra['traces_validated_against_model'] = len(reqs)
     R.extra['entries'] = len(keys)
     return R
